@@ -4,7 +4,7 @@ var two = []string{"avx2", "u32"}
 var three = []string{"avx2", "purego", "u32"}
 
 var specs = map[string]propSpec{
-	"C01": {ID: "C01", Quick: all4, Thorough: all4, Assume: []string{"SHA-512 of the Go standard library", "the reference predicate is the formula in the property statement evaluated on affine big-integer points"}},
+	"C01": {ID: "C01", Instr: "tick", Quick: all4, Thorough: all4, Assume: []string{"SHA-512 of the Go standard library", "the reference predicate is the formula in the property statement evaluated on affine big-integer points"}},
 	"C02": {ID: "C02", Quick: all4, Thorough: all4, Assume: []string{"crypto/ed25519 and the big-integer RFC 8032 signer are independent oracles that agree with each other"}},
 	"C03": {ID: "C03", Quick: all4, Thorough: all4, Assume: []string{"affine big-integer group law; discrete-log bookkeeping for long sums"}},
 	"C04": {ID: "C04", Situ: "field", Quick: all4, Thorough: all4, Assume: []string{"limb headroom stressed = the budget documented in the code comments (u64 < 2^54, u32 +1.75 bits) and, for AVX2 lanes, the envelope measured in situ"}},
